@@ -107,6 +107,15 @@ module Nat =
     | S n' -> (match m with
                | O -> false
                | S m' -> eqb n' m')
+
+  (** val leb : nat -> nat -> bool **)
+
+  let rec leb n0 m =
+    match n0 with
+    | O -> true
+    | S n' -> (match m with
+               | O -> false
+               | S m' -> leb n' m')
  end
 
 module Pos =
@@ -749,11 +758,34 @@ let rec nth n0 l default =
             | [] -> default
             | _ :: t -> nth m t default)
 
+(** val last : 'a1 list -> 'a1 -> 'a1 **)
+
+let rec last l d =
+  match l with
+  | [] -> d
+  | a :: l0 -> (match l0 with
+                | [] -> a
+                | _ :: _ -> last l0 d)
+
+(** val removelast : 'a1 list -> 'a1 list **)
+
+let rec removelast = function
+| [] -> []
+| a :: l0 -> (match l0 with
+              | [] -> []
+              | _ :: _ -> a :: (removelast l0))
+
 (** val rev : 'a1 list -> 'a1 list **)
 
 let rec rev = function
 | [] -> []
 | x :: l' -> app (rev l') (x :: [])
+
+(** val concat : 'a1 list list -> 'a1 list **)
+
+let rec concat = function
+| [] -> []
+| x :: l0 -> app x (concat l0)
 
 (** val map : ('a1 -> 'a2) -> 'a1 list -> 'a2 list **)
 
@@ -2909,6 +2941,235 @@ let rec rc_loop fuel hist maxt res t =
 let rc hist =
   let maxt = last_nonzero hist Z0 Z0 in
   rc_loop (length hist) hist maxt (zq maxt) Z0
+
+(** val thin_elems : ((z * z) * bool) list list **)
+
+let thin_elems =
+  ((((Zneg XH), (Zneg XH)), false) :: ((((Zneg XH), Z0), false) :: ((((Zneg
+    XH), (Zpos XH)), false) :: ((((Zpos XH), (Zneg XH)), true) :: ((((Zpos
+    XH), Z0), true) :: ((((Zpos XH), (Zpos XH)),
+    true) :: [])))))) :: (((((Zneg XH), Z0), false) :: ((((Zneg XH), (Zpos
+    XH)), false) :: (((Z0, (Zpos XH)), false) :: (((Z0, (Zneg XH)),
+    true) :: ((((Zpos XH), (Zneg XH)), true) :: ((((Zpos XH), Z0),
+    true) :: [])))))) :: (((((Zneg XH), (Zneg XH)), true) :: (((Z0, (Zneg
+    XH)), true) :: ((((Zpos XH), (Zneg XH)), true) :: ((((Zneg XH), (Zpos
+    XH)), false) :: (((Z0, (Zpos XH)), false) :: ((((Zpos XH), (Zpos XH)),
+    false) :: [])))))) :: (((((Zneg XH), (Zneg XH)), true) :: ((((Zneg XH),
+    Z0), true) :: (((Z0, (Zneg XH)), true) :: (((Z0, (Zpos XH)),
+    false) :: ((((Zpos XH), Z0), false) :: ((((Zpos XH), (Zpos XH)),
+    false) :: [])))))) :: (((((Zneg XH), (Zneg XH)), true) :: ((((Zneg XH),
+    Z0), true) :: ((((Zneg XH), (Zpos XH)), true) :: ((((Zpos XH), (Zneg
+    XH)), false) :: ((((Zpos XH), Z0), false) :: ((((Zpos XH), (Zpos XH)),
+    false) :: [])))))) :: (((((Zneg XH), Z0), true) :: ((((Zneg XH), (Zpos
+    XH)), true) :: (((Z0, (Zpos XH)), true) :: (((Z0, (Zneg XH)),
+    false) :: ((((Zpos XH), (Zneg XH)), false) :: ((((Zpos XH), Z0),
+    false) :: [])))))) :: (((((Zneg XH), (Zneg XH)), false) :: ((((Zneg XH),
+    Z0), false) :: (((Z0, (Zneg XH)), false) :: (((Z0, (Zpos XH)),
+    true) :: ((((Zpos XH), Z0), true) :: ((((Zpos XH), (Zpos XH)),
+    true) :: [])))))) :: (((((Zneg XH), (Zneg XH)), false) :: (((Z0, (Zneg
+    XH)), false) :: ((((Zpos XH), (Zneg XH)), false) :: ((((Zneg XH), (Zpos
+    XH)), true) :: (((Z0, (Zpos XH)), true) :: ((((Zpos XH), (Zpos XH)),
+    true) :: [])))))) :: [])))))))
+
+(** val euler_lookup4_x4 : z list **)
+
+let euler_lookup4_x4 =
+  Z0 :: ((Zpos XH) :: ((Zpos XH) :: (Z0 :: ((Zpos XH) :: (Z0 :: ((Zpos (XO
+    XH)) :: ((Zneg XH) :: ((Zpos XH) :: ((Zpos (XO XH)) :: (Z0 :: ((Zneg
+    XH) :: (Z0 :: ((Zneg XH) :: ((Zneg XH) :: (Z0 :: [])))))))))))))))
+
+(** val euler_lookup8_x4 : z list **)
+
+let euler_lookup8_x4 =
+  Z0 :: ((Zpos XH) :: ((Zpos XH) :: (Z0 :: ((Zpos XH) :: (Z0 :: ((Zneg (XO
+    XH)) :: ((Zneg XH) :: ((Zpos XH) :: ((Zneg (XO XH)) :: (Z0 :: ((Zneg
+    XH) :: (Z0 :: ((Zneg XH) :: ((Zneg XH) :: (Z0 :: [])))))))))))))))
+
+(** val euler_powers : z list list **)
+
+let euler_powers =
+  ((Zpos XH) :: ((Zpos (XO XH)) :: [])) :: (((Zpos (XO (XO XH))) :: ((Zpos
+    (XO (XO (XO XH)))) :: [])) :: [])
+
+(** val fgb : arr -> z list -> bool **)
+
+let fgb img p =
+  negb (Z.eqb (aget img p) Z0)
+
+(** val tmatch : arr -> ((z * z) * bool) list -> z list -> bool **)
+
+let tmatch img elem p =
+  (&&) (fgb img p)
+    (forallb (fun e ->
+      let (y, v) = e in
+      let (dy, dx) = y in eqb v (fgb img (padd p (dy :: (dx :: []))))) elem)
+
+(** val thin_pass : arr -> ((z * z) * bool) list -> arr **)
+
+let thin_pass img elem =
+  { shape = img.shape; data =
+    (map (fun p -> if tmatch img elem p then Z0 else aget img p)
+      (all_positions img.shape)) }
+
+(** val thin_round : arr -> arr **)
+
+let thin_round img =
+  fold_left thin_pass thin_elems img
+
+(** val thin_loop : nat -> arr -> arr **)
+
+let rec thin_loop fuel img =
+  match fuel with
+  | O -> img
+  | S k ->
+    let img' = thin_round img in
+    if list_eqb img'.data img.data then img' else thin_loop k img'
+
+(** val thin : arr -> z list **)
+
+let thin f =
+  let bb = bbox_generic f in
+  let min0 = nthZ Z0 bb Z0 in
+  let max0 = nthZ Z0 bb (Zpos XH) in
+  let min1 = nthZ Z0 bb (Zpos (XO XH)) in
+  let max1 = nthZ Z0 bb (Zpos (XI XH)) in
+  let r = Z.sub max0 min0 in
+  let c = Z.sub max1 min1 in
+  let esh = (Z.add r (Zpos (XO XH))) :: ((Z.add c (Zpos (XO XH))) :: []) in
+  let exp = { shape = esh; data =
+    (map (fun p ->
+      let y = nthZ Z0 p Z0 in
+      let x = nthZ Z0 p (Zpos XH) in
+      if (&&)
+           ((&&) ((&&) (Z.leb (Zpos XH) y) (Z.leb y r)) (Z.leb (Zpos XH) x))
+           (Z.leb x c)
+      then if Z.eqb
+                (aget f
+                  ((Z.sub (Z.add min0 y) (Zpos XH)) :: ((Z.sub (Z.add min1 x)
+                                                          (Zpos XH)) :: [])))
+                Z0
+           then Z0
+           else Zpos XH
+      else Z0) (all_positions esh)) }
+  in
+  let res = thin_loop (S (length exp.data)) exp in
+  map (fun p ->
+    let y = nthZ Z0 p Z0 in
+    let x = nthZ Z0 p (Zpos XH) in
+    if (&&) ((&&) ((&&) (Z.leb min0 y) (Z.ltb y max0)) (Z.leb min1 x))
+         (Z.ltb x max1)
+    then aget res
+           ((Z.add (Z.sub y min0) (Zpos XH)) :: ((Z.add (Z.sub x min1) (Zpos
+                                                   XH)) :: []))
+    else Z0) (all_positions f.shape)
+
+(** val pad_br : arr -> arr **)
+
+let pad_br f =
+  let h = nthZ Z0 f.shape Z0 in
+  let w = nthZ Z0 f.shape (Zpos XH) in
+  { shape = ((Z.add h (Zpos XH)) :: ((Z.add w (Zpos XH)) :: [])); data =
+  (map (fun p ->
+    if (&&) (Z.ltb (nthZ Z0 p Z0) h) (Z.ltb (nthZ Z0 p (Zpos XH)) w)
+    then if Z.eqb (aget f p) Z0 then Z0 else Zpos XH
+    else Z0)
+    (all_positions ((Z.add h (Zpos XH)) :: ((Z.add w (Zpos XH)) :: [])))) }
+
+(** val euler_x4 : bool -> arr -> z **)
+
+let euler_x4 n8 f =
+  let g = pad_br f in
+  let pw = { shape = ((Zpos (XO XH)) :: ((Zpos (XO XH)) :: [])); data =
+    (concat euler_powers) }
+  in
+  let codes = convolve_generic m_constant g pw in
+  sumZ
+    (map (fun c ->
+      nthZ Z0 (if n8 then euler_lookup8_x4 else euler_lookup4_x4) c) codes)
+
+type pt = z * z
+
+(** val forward_lt : pt -> pt -> bool **)
+
+let forward_lt a b =
+  if Z.eqb (fst a) (fst b)
+  then Z.ltb (snd a) (snd b)
+  else Z.ltb (fst a) (fst b)
+
+(** val reverse_lt : pt -> pt -> bool **)
+
+let reverse_lt a b =
+  if Z.eqb (fst a) (fst b)
+  then Z.gtb (snd a) (snd b)
+  else Z.gtb (fst a) (fst b)
+
+(** val is_left : pt -> pt -> pt -> z **)
+
+let is_left p0 p1 p2 =
+  Z.sub (Z.mul (Z.sub (fst p1) (fst p0)) (Z.sub (snd p2) (snd p0)))
+    (Z.mul (Z.sub (fst p2) (fst p0)) (Z.sub (snd p1) (snd p0)))
+
+(** val pinsert : (pt -> pt -> bool) -> pt -> pt list -> pt list **)
+
+let rec pinsert lt x l = match l with
+| [] -> x :: []
+| y :: t -> if lt y x then y :: (pinsert lt x t) else x :: l
+
+(** val psort : (pt -> pt -> bool) -> pt list -> pt list **)
+
+let psort lt l =
+  fold_right (pinsert lt) [] l
+
+(** val chain_pop : pt list -> pt -> pt list -> pt list * pt list **)
+
+let rec chain_pop stack p disc =
+  match stack with
+  | [] -> ([], disc)
+  | a :: rest ->
+    (match rest with
+     | [] -> (stack, disc)
+     | b :: _ ->
+       if Z.geb (is_left b a p) Z0
+       then chain_pop rest p (a :: disc)
+       else (stack, disc))
+
+(** val chain_step : (pt list * pt list) -> pt -> pt list * pt list **)
+
+let chain_step sd p =
+  let (st, disc) = chain_pop (fst sd) p (snd sd) in ((p :: st), disc)
+
+(** val scan : (pt -> pt -> bool) -> pt list -> pt list * pt list **)
+
+let scan lt pts =
+  match psort lt pts with
+  | [] -> ([], [])
+  | p0 :: rest ->
+    let (st, disc) = fold_left chain_step rest ((p0 :: []), []) in
+    ((rev st), disc)
+
+(** val graham : pt list -> pt list **)
+
+let graham pts =
+  if Nat.leb (length pts) (S (S (S O)))
+  then pts
+  else let (h1, disc) = scan forward_lt pts in
+       (match h1 with
+        | [] -> []
+        | p0 :: t ->
+          let lastp = last h1 p0 in
+          let (h2, _) = scan reverse_lt (lastp :: (p0 :: disc)) in
+          app (removelast t) h2)
+
+(** val fg_points : arr -> pt list **)
+
+let fg_points f =
+  map (fun p -> ((nthZ Z0 p Z0), (nthZ Z0 p (Zpos XH))))
+    (filter (fgb f) (all_positions f.shape))
+
+(** val convexhull : arr -> pt list **)
+
+let convexhull f =
+  graham (fg_points f)
 
 (** val gbernsen_px : q -> q -> q -> q -> q -> bool **)
 
